@@ -66,6 +66,10 @@ def key_fn(objs, part):
         if n is None or d is None:
             return (2, 0)
         lead = neg if first_neg else pos
+        if n == 0:
+            # the base line itself: 'Township 0 North' and 'Township 0 South' are the same place on the signed number
+            # line the order is defined on; the property does not order them (theorem C17_…_partial has the counterexample)
+            return (0, 0)
         if d == lead:
             return (0, -n)
         return (1, n)
